@@ -21,6 +21,7 @@ cleanup() { git -C /repo worktree remove --force "$wt" 2>/dev/null; rm -rf "$wt"
 trap cleanup EXIT
 cd "$wt"
 tagflag=""; [ -n "$tags" ] && tagflag="-tags=$tags"
+grep -m1 -E "go test" "$demo" | grep -q -- "-race" && tagflag="$tagflag -race"
 pkgs=$(grep '^+++ b/' "$seed/patch.diff" | sed 's:^+++ b/::' | xargs -n1 dirname | sort -u | sed 's:^:./:')
 cp "$demo" "$target/zz_seed_demo_test.go"
 echo "== demo on clean tree ($target, -run ${runpat:-.} $tagflag)"
